@@ -65,3 +65,17 @@ Theorem C11_main : forall s es rel,
   setup_valid s -> Forall event_valid es ->
   exists i o, init s = Ok (i, o) /\ ok_C11 (mkCase s es rel (Some o) (run i es)) = true.
 Proof. exact ok_C11_model. Qed.
+
+(** Observation F27 (not raised, DESIGN 14.3; outside the quantifier of C11, which
+    ranges over Announce contents, not over sequence-id anomalies): when the
+    parent's sequence ids restart, parentDS alternates between the new contents
+    (after each Announce) and the old ones (after each BMCA run) until the old
+    records have aged out.  Evaluated on the model. *)
+From SV Require Import Port.F27Example.
+Example C11_observation_F27_flipflop :
+  f27_class_after f27_pre = Some 6 /\
+  f27_class_after (f27_pre ++ [EvRecvGeneral 0 (f27_ann 5 7)]) = Some 7 /\
+  f27_class_after (f27_pre ++ [EvRecvGeneral 0 (f27_ann 5 7); EvBmca]) = Some 6 /\
+  f27_class_after (f27_pre ++ [EvRecvGeneral 0 (f27_ann 5 7); EvBmca; EvRecvGeneral 0 (f27_ann 6 7)]) = Some 7 /\
+  f27_class_after (f27_pre ++ [EvRecvGeneral 0 (f27_ann 5 7); EvBmca; EvRecvGeneral 0 (f27_ann 6 7); EvBmca]) = Some 6.
+Proof. exact f27_flipflop. Qed.
